@@ -108,7 +108,7 @@ func makeTraffic(name string, horizon time.Duration) traffic {
 			tr.App = append(tr.App, tev{appPhase + skew(p), p})
 			every(&tr.Peer, peerPhase, time.Minute, p)
 		}
-	case "both60", "second-socket":
+	case "both60", "second-socket", "second-socket-after-tcp":
 		npeers = 2
 		for p := range npeers {
 			every(&tr.App, appPhase, time.Minute, p)
@@ -624,6 +624,34 @@ func runOnce(t *testing.T, sc scenario) (res *runResult) { //nolint:gocognit,cyc
 
 			return
 		}
+		if sc.Pattern == "second-socket-after-tcp" {
+			// the same with a TCP allocation (a net.Listener) as the first relayed socket
+			_ = relay.Close()
+			synctest.Wait()
+			first, terr := cl.AllocateTCP()
+			if terr != nil {
+				add("allocate-failed", "AllocateTCP after Close: "+terr.Error())
+				res.Outcome = "error:allocate"
+				cl.Close()
+				_ = fc.Close()
+				w.Close()
+
+				return
+			}
+			_ = first.Close()
+			synctest.Wait()
+			if relay, err = cl.Allocate(); err != nil {
+				add("allocate-failed", "Allocate after the TCP allocation was closed: "+err.Error())
+				res.Outcome = "error:allocate"
+				cl.Close()
+				_ = fc.Close()
+				w.Close()
+
+				return
+			}
+			_ = first.Close() // closing the closed listener again changes nothing for the open socket
+			synctest.Wait()
+		}
 		if sc.Pattern == "second-socket" {
 			first := relay
 			_ = first.Close()
@@ -1107,15 +1135,15 @@ func judge(r *rep.Report, tl *tally, sc scenario, res *runResult, part string, f
 		if part != "close" {
 			sig += ":after=" + after
 		}
-		if sc.Pattern == "second-socket" {
+		if strings.HasPrefix(sc.Pattern, "second-socket") {
 			// the history is part of the signature, and so is which of the two Refresh(0) a deviation hit
 			p := make([]string, len(sc.Devs))
 			for i, d := range sc.Devs {
 				p[i] = d.Tx + "-" + d.Kind
 			}
-			sig = "second-socket:" + f.Sig + ":after=" + strings.Join(p, "+")
+			sig = sc.Pattern + ":" + f.Sig + ":after=" + strings.Join(p, "+")
 			if len(sc.Devs) == 0 {
-				sig = "second-socket:" + f.Sig + ":after=none"
+				sig = sc.Pattern + ":" + f.Sig + ":after=none"
 			}
 		}
 		r.Violate(rep.Violation{Oracle: "c14-" + part, Signature: sig,
@@ -1162,7 +1190,7 @@ func combos(patterns ...string) []combo {
 func extraCombos() []combo {
 	long := srvCfg{"life2400(2400,300,600)", 2400 * time.Second, 300 * time.Second, 600 * time.Second}
 
-	return []combo{{long, "idle"}, {long, "both60"}, {configs()[0], "second-socket"}}
+	return []combo{{long, "idle"}, {long, "both60"}, {configs()[0], "second-socket"}, {configs()[0], "second-socket-after-tcp"}}
 }
 
 func replay(t *testing.T, r *rep.Report) bool {
@@ -1250,6 +1278,17 @@ func TestC14Faults(t *testing.T) {
 			var keep []deviation
 			for _, d := range devs {
 				if strings.HasPrefix(d.Tx, "CreatePermission/refresh#") && (strings.HasSuffix(d.Tx, "#1") || strings.HasSuffix(d.Tx, "#2") || strings.HasSuffix(d.Tx, "#3")) {
+					keep = append(keep, d)
+				}
+			}
+			devs = keep
+		}
+		if cb.pat == "second-socket-after-tcp" {
+			// the subject of this pattern is the history itself (a closed listener closed again); what a lost or late
+			// answer to a Refresh(0) does to a successor allocation is the subject of "second-socket"
+			var keep []deviation
+			for _, d := range devs {
+				if !strings.HasPrefix(d.Tx, "Refresh0#") {
 					keep = append(keep, d)
 				}
 			}
